@@ -40,10 +40,12 @@ def kinds():
         # body lengths 248 and 497: residues 1 and 3 modulo the fragment size
         "E": (lambda tsn: wnv(tsn, 236), c.NcpConfig.WriteNVRAM.Rsp, dict()),
         "F": (lambda tsn: wnv(tsn, 485), c.NcpConfig.WriteNVRAM.Rsp, dict()),
+        # a message of two dozen fragments
+        "H": (lambda tsn: wnv(tsn, 5600), c.NcpConfig.WriteNVRAM.Rsp, dict()),
     }
 
 
-KEY = {"G": 1, "P": 2, "Z": 3, "D": 4, "W": 5, "B": 5, "E": 5, "F": 5}
+KEY = {"G": 1, "P": 2, "Z": 3, "D": 4, "W": 5, "B": 5, "E": 5, "F": 5, "H": 5}
 
 
 def rsp_bytes(Rsp, tsn, seq, **kw):
